@@ -49,6 +49,12 @@ fn main() {
             }
             println!("SEARCH tried={} found=0", n);
         }
+        Some("card-check") => {
+            // replay card-check c13|c14 : complete native enumeration of the finite domains
+            let r = if args[2] == "c13" { search::check_c13() } else { search::check_c14() };
+            match r { Ok(s) => { println!("OK {}", s); println!("SEARCH tried=1 found=0"); }
+                      Err(s) => { println!("WITNESS card-check {} :: {}", args[2], s); println!("SEARCH tried=1 found=1"); std::process::exit(1); } }
+        }
         Some("iter") => {
             // replay iter <c02|c04|c08> <flop> <full|scopes> <ranges...>
             let case = search::IterCase::parse(&args[3..]);
